@@ -269,6 +269,8 @@ type xplorer struct {
 	Overflow bool
 	maxDepth int
 	fieldFn  map[FieldID][]ssa.Value
+	cur      *xState // state being stepped (for resolutions that need it)
+	impls    map[*types.Interface]*ssa.Function
 }
 
 // c12xOnOverflow is called when an exploration exceeds its budget (the
@@ -547,6 +549,26 @@ func (s *xState) eval(f *xFrame, v ssa.Value, depth int) xVal {
 			}
 			return xVal{K: xAtom, V: v, F: f}
 		}
+		if bn := builtinName(t); (bn == "min" || bn == "max") && len(t.Call.Args) >= 1 {
+			var best int64
+			all := true
+			stale := false
+			for i, a := range t.Call.Args {
+				av := s.eval(f, a, depth+1)
+				stale = stale || av.Stale
+				if av.K != xInt {
+					all = false
+					continue
+				}
+				if i == 0 || (bn == "min" && av.I < best) || (bn == "max" && av.I > best) {
+					best = av.I
+				}
+			}
+			if all {
+				return xIntVal(best)
+			}
+			return xVal{K: xAtom, V: v, F: f, Stale: stale}
+		}
 		if builtinName(t) == "append" && len(t.Call.Args) == 2 {
 			r := xVal{K: xAtom, V: v, F: f}
 			a, b := s.eval(f, t.Call.Args[0], depth+1), s.eval(f, t.Call.Args[1], depth+1)
@@ -659,6 +681,16 @@ func (s *xState) load(f *xFrame, u *ssa.UnOp, depth int) xVal {
 		// never stored on this path: zero value / static
 		if addr.F == nil {
 			return xVal{K: xAtom, V: u, F: nil}
+		}
+		if b, ok := u.Type().Underlying().(*types.Basic); ok {
+			// a local of basic type that has not been assigned on this path still
+			// holds its zero value (e.g. the state variable of a range-over-func body)
+			switch {
+			case b.Info()&types.IsInteger != 0:
+				return xIntVal(0)
+			case b.Info()&types.IsBoolean != 0:
+				return xVal{K: xBool, B: false}
+			}
 		}
 		return xVal{K: xAtom, V: u, F: f}
 	}
@@ -824,7 +856,21 @@ func (x *xplorer) inlinable(s *xState, callee *ssa.Function) bool {
 			return false
 		}
 	} else if pk != x.pkg {
-		return false
+		// small pure iterator / slice helpers of the standard library are
+		// followed too (range-over-func over slices.Values, slices.All, maps.Keys …)
+		switch pk.Pkg.Path() {
+		case "slices", "maps", "iter":
+			res := callee.Signature.Results()
+			isIter := callee.Parent() != nil // the iterator closure itself
+			if res.Len() == 1 && strings.HasPrefix(namedKey(res.At(0).Type()), "iter.Seq") {
+				isIter = true
+			}
+			if !isIter {
+				return false
+			}
+		default:
+			return false
+		}
 	}
 	if x.cl.NoInline != nil && x.cl.NoInline(callee) {
 		return false
@@ -843,7 +889,7 @@ func (x *xplorer) inlinable(s *xState, callee *ssa.Function) bool {
 // calleeOf resolves the function a call instruction invokes on this path.
 func (x *xplorer) calleeOf(s *xState, f *xFrame, cc *ssa.CallCommon) (*ssa.Function, *xVal) {
 	if cc.IsInvoke() {
-		return nil, nil
+		return x.soleImplementation(cc), nil
 	}
 	switch v := cc.Value.(type) {
 	case *ssa.Function:
@@ -853,6 +899,48 @@ func (x *xplorer) calleeOf(s *xState, f *xFrame, cc *ssa.CallCommon) (*ssa.Funct
 	}
 	cv := s.eval(f, cc.Value, 0)
 	return x.funcOf(cv)
+}
+
+// soleImplementation: for a method call on an interface declared in the
+// analysed package that exactly one named type of the package implements (a
+// single-implementation seam), the method of that type.
+func (x *xplorer) soleImplementation(cc *ssa.CallCommon) *ssa.Function {
+	named, ok := types.Unalias(cc.Value.Type()).(*types.Named)
+	if !ok || named.Obj().Pkg() == nil || x.pkg == nil || named.Obj().Pkg() != x.pkg.Pkg {
+		return nil
+	}
+	iface, ok := named.Underlying().(*types.Interface)
+	if !ok {
+		return nil
+	}
+	var impl types.Type
+	n := 0
+	for _, m := range x.pkg.Members {
+		tn, ok := m.(*ssa.Type)
+		if !ok {
+			continue
+		}
+		t := tn.Type()
+		if _, isIface := t.Underlying().(*types.Interface); isIface {
+			continue
+		}
+		switch {
+		case types.Implements(t, iface):
+			impl = t
+			n++
+		case types.Implements(types.NewPointer(t), iface):
+			impl = types.NewPointer(t)
+			n++
+		}
+	}
+	if n != 1 {
+		return nil
+	}
+	sel := x.p.SSA.MethodSets.MethodSet(impl).Lookup(cc.Method.Pkg(), cc.Method.Name())
+	if sel == nil {
+		return nil
+	}
+	return x.p.SSA.MethodValue(sel)
 }
 
 // funcOf: the function an abstract value denotes: a closure, a function, or a
@@ -867,6 +955,38 @@ func (x *xplorer) funcOf(cv xVal) (*ssa.Function, *xVal) {
 			}
 		case *ssa.Function:
 			return v, nil
+		}
+	}
+	if cv.K == xAtom && cv.V != nil {
+		// a value that belongs to a function not being explored (captured by a
+		// goroutine body, bound at a go statement): all its roots must be one
+		// function value
+		if st := x.cur; st != nil {
+			var only ssa.Value
+			ok := true
+			roots := st.Static(cv)
+			for _, r := range roots {
+				switch r.(type) {
+				case *ssa.MakeClosure, *ssa.Function:
+				default:
+					ok = false
+				}
+				if only != nil && only != r {
+					ok = false
+				}
+				only = r
+			}
+			if ok && only != nil && only != cv.V {
+				switch v := only.(type) {
+				case *ssa.MakeClosure:
+					if fn, isFn := v.Fn.(*ssa.Function); isFn {
+						c := xVal{K: xAtom, V: v, F: nil}
+						return fn, &c
+					}
+				case *ssa.Function:
+					return v, nil
+				}
+			}
 		}
 	}
 	if cv.K == xField {
@@ -912,6 +1032,9 @@ func (x *xplorer) funcOf(cv xVal) (*ssa.Function, *xVal) {
 func (x *xplorer) enterCall(s *xState, callee *ssa.Function, closure *xVal, site ssa.CallInstruction, args []xVal, cont xCont) {
 	nf := x.frame(s.fr, callee, site, "")
 	nf.closure = closure
+	if os.Getenv("C12X_DEBUG") == "2" {
+		fmt.Fprintf(os.Stderr, "  enter %s (depth %d) from %s\n", callee.String(), nf.depth, s.fr.fn.String())
+	}
 	if x.cl.OnEnter != nil {
 		x.cl.OnEnter(s, callee, site)
 	}
@@ -941,6 +1064,9 @@ func (x *xplorer) enterCall(s *xState, callee *ssa.Function, closure *xVal, site
 
 func (x *xplorer) evalArgs(s *xState, f *xFrame, cc *ssa.CallCommon) []xVal {
 	var out []xVal
+	if cc.IsInvoke() {
+		out = append(out, s.eval(f, cc.Value, 0)) // the receiver
+	}
 	for _, a := range cc.Args {
 		out = append(out, s.eval(f, a, 0))
 	}
@@ -950,6 +1076,7 @@ func (x *xplorer) evalArgs(s *xState, f *xFrame, cc *ssa.CallCommon) []xVal {
 // step executes one instruction; returns the continued state (nil = path
 // ended) and forks.
 func (x *xplorer) step(s *xState) (*xState, []*xState) {
+	x.cur = s
 	if s.pc >= len(s.blk.Instrs) {
 		return nil, nil
 	}
